@@ -82,6 +82,77 @@ func (e *Exec) copyObj(o *Obj, memo map[*Obj]*Obj, mmemo map[*MapObj]*MapObj) *O
 	return n
 }
 
+// requiredMissing reports (forking on maybe-nil pointers) whether a proto2
+// message lacks a field declared `required` — the condition under which the
+// real proto.Unmarshal fails with "required field missing". The declarations
+// are read from the generated struct tags of the current source.
+func (e *Exec) requiredMissing(v Value, t types.Type, depth int) bool {
+	if depth > 8 {
+		return false
+	}
+	switch x := v.(type) {
+	case Ptr:
+		if x.Obj == nil {
+			return false
+		}
+		if x.NilCond != nil && e.decide(x.NilCond) {
+			return false
+		}
+		pt, ok := t.Underlying().(*types.Pointer)
+		if !ok {
+			return false
+		}
+		return e.requiredMissing(getPath(x.Obj.V, x.Path), pt.Elem(), depth+1)
+	case StructV:
+		st, ok := t.Underlying().(*types.Struct)
+		if !ok {
+			return false
+		}
+		for i := 0; i < st.NumFields(); i++ {
+			tag := st.Tag(i)
+			fv := x.F[i]
+			if strings.Contains(tag, "protobuf:") && strings.Contains(tag, ",req,") {
+				switch f := fv.(type) {
+				case Ptr:
+					if f.Obj == nil {
+						return true
+					}
+					if f.NilCond != nil && e.decide(f.NilCond) {
+						return true
+					}
+				}
+			}
+			if st.Field(i).Name() == "extensionFields" {
+				if mv, ok := fv.(MapV); ok && mv.M != nil {
+					for _, ev := range mv.M.Vals {
+						if iv, ok := ev.(IfaceV); ok && iv.T != nil && e.requiredMissing(iv.V, iv.T, depth+1) {
+							return true
+						}
+					}
+				}
+				continue
+			}
+			if !strings.Contains(tag, "protobuf:") {
+				continue
+			}
+			if e.requiredMissing(fv, st.Field(i).Type(), depth+1) {
+				return true
+			}
+		}
+	case SliceV:
+		sl, ok := t.Underlying().(*types.Slice)
+		if !ok {
+			return false
+		}
+		for i := 0; i < x.Len; i++ {
+			if e.requiredMissing(getPath(x.Arr.V, []int{x.Off + i}), sl.Elem(), depth+1) {
+				return true
+			}
+		}
+	}
+	return false
+}
+
 func extFieldIndex(t types.Type) int {
 	st, ok := t.Underlying().(*types.Struct)
 	if !ok {
@@ -150,8 +221,35 @@ func init() {
 		return SliceV{Arr: arr}
 	}
 	stubs["google.golang.org/protobuf/proto.Unmarshal"] = func(e *Exec, fr *Frame, fn *ssa.Function, a []Value) Value {
-		b := a[0].(SliceV)
 		dst := a[1].(IfaceV)
+		if cv, ok := a[0].(chunksV); ok {
+			// the content of a bytes.Buffer filled from directory files
+			var blobs []*protoBlob
+			for _, c := range cv.cs {
+				if c.blob == nil {
+					e.unsupported("proto.Unmarshal of buffer content not produced by the harness")
+				}
+				blobs = append(blobs, c.blob)
+			}
+			if len(blobs) == 0 {
+				return e.newError("proto: required field missing")
+			}
+			for _, b := range blobs {
+				if b.bad {
+					return e.newError("proto: cannot parse invalid wire-format data")
+				}
+			}
+			if len(blobs) > 1 {
+				e.unsupported("proto.Unmarshal of several concatenated valid messages (protobuf merge semantics are not modelled)")
+			}
+			if e.requiredMissing(blobs[0].msg, dst.T, 0) {
+				return e.newError("proto: required field missing")
+			}
+			cp := e.deepCopy(blobs[0].msg, map[*Obj]*Obj{}, map[*MapObj]*MapObj{}).(Ptr)
+			e.store(dst.V.(Ptr), getPath(cp.Obj.V, cp.Path))
+			return IfaceV{}
+		}
+		b := a[0].(SliceV)
 		if b.Arr == nil {
 			// empty input is a valid empty message for proto3, but FeedMessage has a required header
 			return e.newError("proto: required field missing")
@@ -165,6 +263,9 @@ func init() {
 		}
 		if blob.bad {
 			return e.newError("proto: cannot parse invalid wire-format data")
+		}
+		if e.requiredMissing(blob.msg, dst.T, 0) {
+			return e.newError("proto: required field missing")
 		}
 		cp := e.deepCopy(blob.msg, map[*Obj]*Obj{}, map[*MapObj]*MapObj{}).(Ptr)
 		dp := dst.V.(Ptr)
